@@ -141,6 +141,17 @@ func handleSubStr(params internal.HandlerFuncParams) ([]byte, error) {
 		end = len(value) - internal.AbsInt(end)
 	}
 
+	// Clamp out-of-range indices. A range that lies entirely outside the string is empty.
+	if start < 0 {
+		start = 0
+	}
+	if start >= len(value) || end < 0 {
+		return []byte("$0\r\n\r\n"), nil
+	}
+	if end >= len(value) {
+		end = len(value) - 1
+	}
+
 	if end >= 0 && end >= start {
 		end += 1
 	}
